@@ -298,6 +298,8 @@ func (s *Spec) Ops(st *explore.State) []explore.Op {
 	// convert denom between base and bridge denomination (user level)
 	ops = append(ops, gov("ConvertDenom(u1,usdt->eth)", &erc20types.MsgConvertDenom{Sender: w.A("u1").Bech(), Receiver: w.A("u1").Bech(), Coin: sdk.NewInt64Coin("usdt", 2), Target: "eth"}))
 	ops = append(ops, gov("ConvertDenom(u1,eth-usdt->base)", &erc20types.MsgConvertDenom{Sender: w.A("u1").Bech(), Receiver: w.A("u2").Bech(), Coin: sdk.NewInt64Coin(s.b.toks["usdt"].Bridge["eth"], 1), Target: "erc20"}))
+	// a coin in the pair's bridge denomination (not its base denom) offered for conversion to the ERC-20
+	ops = append(ops, gov("ConvertCoin(u1,eth-usdt,1)", &erc20types.MsgConvertCoin{Coin: sdk.NewInt64Coin(s.b.toks["usdt"].Bridge["eth"], 1), Receiver: w.A("u1").Hex().String(), Sender: w.A("u1").Bech()}))
 	if !w.App.Erc20Keeper.IsDenomRegistered(ctx, "dai") {
 		ops = append(ops, gov("RegisterCoin(dai)", &erc20types.MsgRegisterCoin{Authority: world.GovAuthority(), Metadata: fxtypes.GetCrossChainMetadataManyToOne("Dai", "DAI", 18, "eth"+scen.ExtAddr("eth", "dai"))}))
 	}
@@ -528,9 +530,9 @@ func runPrograms(thorough bool) func(shard, shards int, deadline time.Time) *exp
 
 func init() {
 	registry.Register(&registry.Check{
-		ID:    "C08",
-		Level: "model_checking",
-		Rule:  "message half: explicit-state DFS over ConvertCoin / ConvertERC20 (self and third-party receiver, FX, module-owned and externally-owned pair), ConvertDenom, toggle, alias add/remove, RegisterCoin, crossChain from ERC-20 and its cancel, blocks; every state: module-owned escrow = ERC-20 totalSupply (WFX: contract's FX balance), externally-owned: tokens held by the module = coin supply over base + bridge denominations, ERC-20 balances of all known holders sum to totalSupply, denom / contract / alias indexes and bank-metadata aliases agree; every conversion moves exactly the amount between exactly sender and receiver. Program half: every program of <= 3 actions over {transfer, approve, transferFrom, crossChain, bridgeCall, cancelSendToExternal, increaseBridgeFee} on one token (both pair kinds), executed as one EVM transaction by a contract that owns tokens; same invariants afterwards",
+		ID:          "C08",
+		Level:       "model_checking",
+		Rule:        "message half: explicit-state DFS over ConvertCoin / ConvertERC20 (self and third-party receiver, FX, module-owned and externally-owned pair), ConvertDenom, toggle, alias add/remove, RegisterCoin, crossChain from ERC-20 and its cancel, blocks; every state: module-owned escrow = ERC-20 totalSupply (WFX: contract's FX balance), externally-owned: tokens held by the module = coin supply over base + bridge denominations, ERC-20 balances of all known holders sum to totalSupply, denom / contract / alias indexes and bank-metadata aliases agree; every conversion moves exactly the amount between exactly sender and receiver. Program half: every program of <= 3 actions over {transfer, approve, transferFrom, crossChain, bridgeCall, cancelSendToExternal, increaseBridgeFee} on one token (both pair kinds), executed as one EVM transaction by a contract that owns tokens; same invariants afterwards",
 		Assumptions: []string{"known ERC-20 holders: users, relayer, erc20 module, precompile address, WFX contract, the program contract", "amounts 1-3 units"},
 		Jobs: func(tier string) []registry.Job {
 			d := 4
